@@ -406,7 +406,7 @@ pub fn run_on_this_thread(plan: &Plan, keep_trace: bool) -> RunOutput {
                 _ => {}
             }
             log.push(format!("{:?}", a));
-            let lines = state.verif_audit(matches!(a, XAct::Stabilise));
+            let lines = crate::run::full_audit(&state, matches!(a, XAct::Stabilise));
             audits += 1;
             for l in lines {
                 viol.push(Violation { property: "C11", rule: "audit", at: log.len(), detail: l });
